@@ -271,6 +271,21 @@ fn rival_plan(rng: &mut SRng) -> Plan {
     Plan { ep, stakes, family: "rival-thresholds", own: iu, slots: slot + 3, windows: 2, jitter_ms: 0, slot_ms: 400, sched, tag: "directed-rival-blocks" }
 }
 
+/// Calls into the node's pool on behalf of the network. A panic inside the pool is the pool's defect (C03 /
+/// C07 / C08 own those clauses): it ends this run and is attributed there, it is not a harness failure.
+macro_rules! pool_call {
+    ($ctx:expr, $dead:ident, $call:expr) => {
+        if !$dead {
+            if let Err(p) = crate::evidence::guarded_async($call).await {
+                let owner = if p.file.contains("parent_ready") { "C07" } else if p.file.contains("finality") { "C08" } else { "C03" };
+                $ctx.violation(format!("{owner} pool call {}", p.sig()), format!("{} at {}:{}", p.msg, p.file, p.line), json!(null));
+                $ctx.count("runs-ended-by-a-pool-panic");
+                $dead = true;
+            }
+        }
+    };
+}
+
 async fn one_run(ctx: &mut Ctx, rng: &mut SRng, directed: bool) {
     let plan = if directed {
         rival_plan(rng)
@@ -292,6 +307,7 @@ async fn one_run(ctx: &mut Ctx, rng: &mut SRng, directed: bool) {
     let (bs_tx, bs_rx) = mpsc::channel::<BlockstoreEvent>(1 << 14);
     let (repair_tx, mut repair_rx) = mpsc::channel(1 << 14);
     let mut pool = PoolImpl::new(ep.own(own), pool_tx, repair_tx);
+    let mut pool_dead = false;
     let mut shadow = Shadow { m: crate::model::PoolModel::new(&ep.stakes, own), s2n: BTreeSet::new(), s2s: BTreeSet::new(), marks: Vec::new() };
     let a2a = Arc::new(RecA2A { log: log.clone(), out: out.clone(), start });
     let mut votor = Votor::new(alpenglow::ValidatorIndex::new(own as u64), ep.vsks[own].clone(), votor_pool_rx, bs_rx, a2a);
@@ -311,7 +327,7 @@ async fn one_run(ctx: &mut Ctx, rng: &mut SRng, directed: bool) {
     let end_ms = (slots + 8) * slot_ms.max(400) + 4000;
     let mut idx = 0;
     let mut now_ms = 0u64;
-    while now_ms <= end_ms {
+    while now_ms <= end_ms && !pool_dead {
         // deliver everything scheduled up to now
         while idx < sched.len() && sched[idx].0 <= now_ms {
             let (t, inp) = sched[idx].clone();
@@ -321,7 +337,7 @@ async fn one_run(ctx: &mut Ctx, rng: &mut SRng, directed: bool) {
                 Input::Vote(mv) => {
                     let v = sign_vote(&ep, mv.signer, mv.kind, mv.slot, mv.hash.as_ref().map(to_bh).as_ref());
                     if let Ok(vv) = ValidatedVote::try_new(v, &ep.info) {
-                        let _ = pool.add_vote(vv).await;
+                        pool_call!(ctx, pool_dead, pool.add_vote(vv));
                         shadow.vote(mv);
                     }
                     ctx.count("input:vote");
@@ -329,7 +345,7 @@ async fn one_run(ctx: &mut Ctx, rng: &mut SRng, directed: bool) {
                 Input::Cert(k, s, h, a, b) => {
                     if let Some(c) = build_cert(&ep, *k, *s, h.as_ref(), a, b).decode() {
                         if let Ok(vc) = ValidatedCert::try_new(c.clone(), &ep.info) {
-                            let _ = pool.add_cert(vc).await;
+                            pool_call!(ctx, pool_dead, pool.add_cert(vc));
                             shadow.cert(&mcert_of(&c));
                         }
                     }
@@ -340,7 +356,7 @@ async fn one_run(ctx: &mut Ctx, rng: &mut SRng, directed: bool) {
                     if voted {
                         if let Some(c) = build_cert(&ep, CK::Notar, *sl, Some(h), signers, &[]).decode() {
                             if let Ok(vc) = ValidatedCert::try_new(c.clone(), &ep.info) {
-                                let _ = pool.add_cert(vc).await;
+                                pool_call!(ctx, pool_dead, pool.add_cert(vc));
                                 shadow.cert(&mcert_of(&c));
                             }
                         }
@@ -359,7 +375,7 @@ async fn one_run(ctx: &mut Ctx, rng: &mut SRng, directed: bool) {
                     log.lock().unwrap().push((seq(), start.elapsed(), Rec::ToVotorBlock(b.0, Some((b.1, *p)), "block")));
                     let info = BlockInfo::verif_new(to_bh(&b.1), to_bid(p));
                     let _ = bs_tx.send(BlockstoreEvent::Block { slot: Slot::new(b.0), block_info: info }).await;
-                    pool.add_block(to_bid(b), to_bid(p)).await;
+                    pool_call!(ctx, pool_dead, pool.add_block(to_bid(b), to_bid(p)));
                     shadow.block(*b, *p);
                     ctx.count("input:block");
                 }
@@ -369,7 +385,7 @@ async fn one_run(ctx: &mut Ctx, rng: &mut SRng, directed: bool) {
                     ctx.count("input:invalid-block");
                 }
                 Input::Standstill => {
-                    pool.recover_from_standstill().await;
+                    pool_call!(ctx, pool_dead, pool.recover_from_standstill());
                     ctx.count("input:standstill");
                 }
             }
@@ -388,13 +404,13 @@ async fn one_run(ctx: &mut Ctx, rng: &mut SRng, directed: bool) {
                     match m {
                         ConsensusMessage::Vote(v) => {
                             if let Ok(vv) = ValidatedVote::try_new(v.clone(), &ep.info) {
-                                let _ = pool.add_vote(vv).await;
+                                pool_call!(ctx, pool_dead, pool.add_vote(vv));
                                 shadow.vote(&mvote_of(&v));
                             }
                         }
                         ConsensusMessage::Cert(c) => {
                             if let Ok(vc) = ValidatedCert::try_new(c.clone(), &ep.info) {
-                                let _ = pool.add_cert(vc).await;
+                                pool_call!(ctx, pool_dead, pool.add_cert(vc));
                                 shadow.cert(&mcert_of(&c));
                             }
                         }
@@ -421,13 +437,13 @@ async fn one_run(ctx: &mut Ctx, rng: &mut SRng, directed: bool) {
             match m {
                 ConsensusMessage::Vote(v) => {
                     if let Ok(vv) = ValidatedVote::try_new(v.clone(), &ep.info) {
-                        let _ = pool.add_vote(vv).await;
+                        pool_call!(ctx, pool_dead, pool.add_vote(vv));
                         shadow.vote(&mvote_of(&v));
                     }
                 }
                 ConsensusMessage::Cert(c) => {
                     if let Ok(vc) = ValidatedCert::try_new(c.clone(), &ep.info) {
-                        let _ = pool.add_cert(vc).await;
+                        pool_call!(ctx, pool_dead, pool.add_cert(vc));
                         shadow.cert(&mcert_of(&c));
                     }
                 }
